@@ -16,6 +16,7 @@ CONSTANTS
   NilPacketSock = FALSE
   CloseWaits = FALSE
   ErrAware = TRUE
+  RecheckAfterRecv = FALSE
   AcceptErrors = 0
 INVARIANTS NoBadEvent CleanAfterAllClosed
 VIEW View
